@@ -132,6 +132,34 @@ func c12Pay(c *fw.Ctx, i int) {
 		if flex && r.Bool() {
 			frame = r.Bytes(r.Range(1, 3*mtu)) // flexible mode does not look at the frame
 		}
+		if len(frame) >= 4 && len(frame) < 60000 && r.Chance(1, 8) {
+			// a VP9 superframe: the frame bytes are followed by an index (marker, the sizes of the sub-frames, marker again) that
+			// is consistent with them - to the RTP payload format it is frame data like any other
+			nsub := r.Range(2, 4)
+			if nsub > len(frame) {
+				nsub = 2
+			}
+			sizes := make([]int, nsub)
+			rest := len(frame)
+			for q := 0; q < nsub-1; q++ {
+				sizes[q] = r.Range(1, rest-(nsub-1-q))
+				rest -= sizes[q]
+			}
+			sizes[nsub-1] = rest
+			mag := 2
+			if len(frame) < 256 && r.Bool() {
+				mag = 1
+			}
+			marker := byte(0xC0 | (mag-1)<<3 | (nsub - 1))
+			frame = append(frame, marker)
+			for _, sz := range sizes {
+				for b := 0; b < mag; b++ {
+					frame = append(frame, byte(sz>>(8*uint(b))))
+				}
+			}
+			frame = append(frame, marker)
+			c.Count("frames_that_are_vp9_superframes", 1)
+		}
 		for _, p := range insts {
 			var pkts [][]byte
 			if what, ch := kpPay.changed(); ch {
